@@ -340,3 +340,55 @@ func ruleShrinkReserve(c *Ctx, id string) {
 		R.Undecided(id, "inode.Shrink|log reserve per round", P.Pos(V.Shrink.Pos()), "Shrink bounds its transaction by NDirty() + k < LogBlocks", "no test of that form found in Shrink or its helpers: how the shrink transaction is kept within the log is not decided")
 	}
 }
+
+// ruleShortWrite: Inode.Write answers ok = true as soon as it has written
+// something and returns how much - the disk can fill up in the middle of a
+// request.  A caller that drops the count takes a prefix for the whole: the
+// operation is acknowledged (and committed) in part.  Every caller must let the
+// count decide something: compare it, return it, or put it in the reply.
+func ruleShortWrite(c *Ctx, id string) {
+	V, P, R := c.V, c.P, c.R
+	R.Rule(id, "no short write is taken for a whole one: every caller of Inode.Write uses the byte count it returns (compares it with what it asked for, or reports it)", 4)
+	w := V.InodeWrite
+	if w == nil {
+		return
+	}
+	for _, cs := range P.CallersOf(w) {
+		if !IsRepoFunc(cs.Caller) {
+			continue
+		}
+		call, isC := cs.Instr.(*ssa.Call)
+		if !isC {
+			R.Fail(id, FuncName(ownerOf(cs.Caller))+"|Write count used", P.Pos(cs.Instr.Pos()), "Inode.Write is called for its results", "called by go/defer: both results dropped")
+			continue
+		}
+		used := false
+		for _, r := range refs(call) {
+			ex, isE := r.(*ssa.Extract)
+			if !isE || ex.Index != 0 {
+				continue
+			}
+			// the count reaches a comparison, a return, a store or a call
+			for v := range fwdClosure([]ssa.Value{ex}, true) {
+				for _, u := range refs(v) {
+					switch x := u.(type) {
+					case *ssa.BinOp:
+						switch x.Op {
+						case token.EQL, token.NEQ, token.LSS, token.LEQ, token.GTR, token.GEQ:
+							used = true
+						}
+					case *ssa.Return, *ssa.Store:
+						used = true
+					case *ssa.Call:
+						if _, isB := x.Call.Value.(*ssa.Builtin); !isB {
+							if cal := x.Call.StaticCallee(); cal == nil || !strings.HasSuffix(cal.Name(), "DPrintf") {
+								used = true
+							}
+						}
+					}
+				}
+			}
+		}
+		R.Check(used, id, FuncName(ownerOf(cs.Caller))+"|Write count used", P.Pos(call.Pos()), "the number of bytes Inode.Write reports is compared, returned or stored by the caller", "count flows into a comparison / return / reply", "the count is dropped: when the disk fills up in the middle of the data, Write returns ok with a short count and the caller commits a prefix of what it was asked to store (a symbolic link to a prefix of its target) and answers OK")
+	}
+}
